@@ -49,7 +49,16 @@ type Case struct {
 	NilHandler bool `json:"nil_error_handler,omitempty"`
 	RelevelAt  int  `json:"relevel_at,omitempty"`
 	RelevelTo  int  `json:"relevel_to,omitempty"`
+	// Decoys: other fan-outs are built from the same destinations (the first one alone, all of them)
+	// plus a destination of their own, before and after the fan-out under test is built: building a
+	// MultiLevelWriter must not change what an existing one, or a later one, delivers to
+	Decoys bool `json:"decoys,omitempty"`
 }
+
+// decoyW belongs to a fan-out nobody writes to.
+type decoyW struct{ n int }
+
+func (d *decoyW) Write(p []byte) (int, error) { d.n++; return len(p), nil }
 
 var builtFilters []*zerolog.FilteredLevelWriter
 
@@ -178,11 +187,22 @@ func run(c *Case) (msg string, nontrivial bool) {
 		}
 	}
 	var l zerolog.Logger
+	var decoys []*decoyW
+	sibling := func() {
+		if c.Decoys {
+			d0, d1 := &decoyW{}, &decoyW{}
+			decoys = append(decoys, d0, d1)
+			zerolog.MultiLevelWriter(append(append([]io.Writer{}, ws...), d1)...)
+			zerolog.MultiLevelWriter(ws[0], d0)
+		}
+	}
+	sibling()
 	if c.Single {
 		l = zerolog.New(ws[0])
 	} else {
 		l = zerolog.New(zerolog.MultiLevelWriter(ws...))
 	}
+	sibling()
 	// model state
 	calls := make([]int, len(leaves))
 	want := make([][]got, len(leaves))
@@ -285,6 +305,11 @@ func run(c *Case) (msg string, nontrivial bool) {
 			}
 		} else if firstErr != nil && (len(handled) != 1 || handled[0] != firstErr) {
 			return fmt.Sprintf("event %d: ErrorHandler calls %v, want exactly one with %v (the first failing destination)", ei, handled, firstErr), nontrivial
+		}
+	}
+	for i, d := range decoys {
+		if d.n != 0 {
+			return fmt.Sprintf("decoy destination %d, part of another fan-out built from the same writers, received %d writes although nothing was written to that fan-out", i, d.n), nontrivial
 		}
 	}
 	for li, lf := range leaves {
@@ -414,6 +439,14 @@ func TestRapid(t *testing.T) {
 	rapid.Check(t, func(rt *rapid.T) {
 		c := &Case{}
 		c.Dests = genDests(rt, rapid.IntRange(1, 8).Draw(rt, "ndest"), 2, "d")
+		if rapid.IntRange(0, 3).Draw(rt, "decoys") == 0 {
+			c.Decoys = true
+			if rapid.Bool().Draw(rt, "nestedfirst") {
+				// the first destination is itself a fan-out built around a fan-out
+				inner := Dest{Kind: "multi", Sub: genDests(rt, rapid.IntRange(1, 3).Draw(rt, "ninner"), 0, "inner")}
+				c.Dests[0] = Dest{Kind: "multi", Sub: append([]Dest{inner}, genDests(rt, rapid.IntRange(0, 2).Draw(rt, "nouter"), 0, "outer")...)}
+			}
+		}
 		ne := rapid.IntRange(1, 30).Draw(rt, "nev")
 		for i := 0; i < ne; i++ {
 			c.Levels = append(c.Levels, rapid.SampledFrom([]int{-1, 0, 1, 2, 3, 6, 9, 127, 5, 5}).Draw(rt, "lvl"))
